@@ -6,6 +6,7 @@ import PaletteModel.ClampDriver
 import PaletteModel.ConvDriver
 import PaletteModel.SoaDriver
 import PaletteModel.RouteDriver
+import PaletteModel.SerdeDriver
 
 open Proto
 
@@ -19,6 +20,7 @@ def dispatch (op : String) (cfg inp outp : List String) : Verdict :=
   | "conv" => Conv.handle cfg inp outp
   | "curve" => Transfer.handle cfg inp outp
   | "lutenc" | "lutdec" | "lutenc16" | "lutdec16" => Lut.handle op cfg inp outp
+  | "ser" | "shape" | "de" | "arr" | "arrde" | "uint" | "uintde" | "maxint" | "desc" | "ntypes" => Serde.handle op cfg inp outp
   | _ => .bad s!"unknown op {op}"
 
 structure DrvAcc where
